@@ -45,7 +45,9 @@ class World:
                 t = Time(week, val2=sec, fmt="gps_ws", scale="gps")
             self.fresh.append((base, n))
             self.arrs.append(t)
-            for conv in (t, t.tai):
+            self.base_scale = t.scale
+            # conversions are elementwise and deterministic: register the converted epochs under the same tags
+            for conv in (t, t.tai, getattr(t.tai, t.scale)):
                 self._register(conv, base)
 
     def _rows(self, x):
@@ -157,7 +159,9 @@ def apply_op(w: World, op, variant_rng):
             b = arrs[op[3]]
             r = type(t).insert(t, op[2], b, {})
         elif k == "scale":
-            r = t.tai
+            # to TAI, and from TAI back to the scale of the source arrays (for gps_ws that comes back in format jd:
+            # equal epochs in another format)
+            r = t.tai if t.scale != "tai" else getattr(t, w.base_scale)
         elif k == "iter":
             items = [x for x in t]
             out = [w.obs(x) for x in items]
